@@ -929,6 +929,7 @@ class ExpiryMachine(RuleBasedStateMachine):
     _ignored_signatures = set()
     _stats = None
     _open = frozenset()
+    _budget = None      # set by run_machine_bounded: {'left': executions after the first failure, 'best': Violation, 'failed': bool}
 
     def __init__(self):
         RuleBasedStateMachine.__init__(self)
@@ -937,6 +938,9 @@ class ExpiryMachine(RuleBasedStateMachine):
 
     @initialize(cfg=configs())
     def setup(self, cfg):
+        b = self._budget
+        if b is not None and b['failed'] and b['left'] <= 0:
+            return      # shrink budget used up: remaining shrink attempts are no-ops (see run_machine_bounded)
         self.eng = Engine(cfg)
 
     def _do(self, op):
@@ -957,6 +961,11 @@ class ExpiryMachine(RuleBasedStateMachine):
             return
         v = eng.apply(op)
         if v is not None and v.signature not in self._ignored_signatures:
+            b = self._budget
+            if b is not None:
+                b['failed'] = True
+                if b['best'] is None or len(v.case['ops']) < len(b['best'].case['ops']):
+                    b['best'] = v
             raise core.MachineViolation(v)
 
     def _anchor(self, i, off):
@@ -1048,6 +1057,9 @@ class ExpiryMachine(RuleBasedStateMachine):
         eng = self.eng
         if eng is None:
             return
+        b = self._budget
+        if b is not None and b['failed']:
+            b['left'] -= 1
         try:
             st_ = self._stats
             if st_ is not None and eng.ops:
@@ -1070,7 +1082,7 @@ def record(st_, eng):
     if nt:
         classes.add('nontrivial')
     key = {'cfg': eng.cfg, 'ops': eng.ops}
-    st_.case(key=key, nontrivial=nt, classes=sorted(classes), sample=key if len(eng.ops) <= 14 else None)
+    st_.case(key=key, nontrivial=nt, classes=sorted(classes), sample=key if len(eng.ops) <= 24 else None)
     for k, n in eng.decisions.items():
         st_.notes['decisions:' + k] += n
     st_.notes.update(eng.notes)
@@ -1081,13 +1093,59 @@ def record(st_, eng):
 # entry points
 
 
+def run_machine_bounded(machine_cls, stats, max_examples, seed, step_count, max_signatures=2, shrink_budget=150):
+    """core.run_machine with a bounded shrink phase (helper kept here because core.py is shared).
+
+    Hypothesis has no shrink budget and one history costs 50-250 ms, so after the first failing history at most
+    `shrink_budget` further histories are executed for real; afterwards every shrink attempt is a no-op that
+    "passes", the shrinker runs dry quickly, and the smallest failing history seen so far is reported.  Hypothesis
+    then notices that its final replay no longer fails (Flaky) - that is expected and swallowed here; the reported
+    case is always one that was really executed and really failed, and `replay()` re-executes it without Hypothesis.
+    """
+    import hypothesis
+    from hypothesis import settings, HealthCheck, Phase
+    from hypothesis.stateful import run_state_machine_as_test
+
+    ignored = set()
+    machine_cls._ignored_signatures = ignored
+    machine_cls._stats = stats
+    try:
+        for _ in range(max_signatures):
+            budget = {'left': shrink_budget, 'best': None, 'failed': False}
+            machine_cls._budget = budget
+            try:
+                run_state_machine_as_test(
+                    hypothesis.seed(seed)(machine_cls),
+                    settings=settings(max_examples=max_examples, stateful_step_count=step_count,
+                                      database=None, deadline=None, derandomize=False,
+                                      report_multiple_bugs=False,
+                                      suppress_health_check=list(HealthCheck),
+                                      phases=[Phase.generate, Phase.shrink], print_blob=False,
+                                      verbosity=hypothesis.Verbosity.quiet))
+            except core.MachineViolation as e:
+                v = budget['best'] or e.violation
+            except hypothesis.errors.Flaky:
+                if budget['best'] is None:
+                    raise
+                v = budget['best']
+                stats.notes['shrink-budget-exhausted'] += 1
+            else:
+                break
+            stats.violations.append(v)
+            ignored.add(v.signature)
+    finally:
+        machine_cls._budget = None
+    return stats
+
+
 def machine_shard(shard, nshards, seed, tier):
     st_ = core.Stats()
     n = (4000 if tier == 'quick' else 160000) // nshards
     steps = 40 if tier == 'quick' else 60
     # VERIF_C13_NO_EXCLUDE=1: generate the construct of the open finding too (used to validate the proposed fix)
     ExpiryMachine._open = frozenset() if os.environ.get('VERIF_C13_NO_EXCLUDE') else frozenset(core.open_signatures(PROPERTY))
-    core.run_machine(ExpiryMachine, st_, max_examples=n, seed=seed, step_count=steps, max_signatures=2)
+    run_machine_bounded(ExpiryMachine, st_, max_examples=n, seed=seed, step_count=steps,
+                        max_signatures=2, shrink_budget=150 if tier == 'quick' else 600)
     return st_
 
 
